@@ -14,64 +14,56 @@ class Lost(Exception):
     """An anchor of the extraction / injection rules no longer applies to the source."""
 
 
+_TOK = re.compile(
+    r"""//[^\n]*|/\*|b?"(?:\\.|[^"\\])*"|(?<![A-Za-z0-9_])r(\#*)"|'(?:\\x[0-9a-fA-F]{2}|\\u\{[0-9a-fA-F]+\}|\\.|[^\\'])'""",
+    re.S)
+_MASK_CACHE = {}
+
+
 def code_mask(s):
     """bytearray m with m[i]==1 iff s[i] is a code character (not comment/string/char literal)."""
+    key = hash(s)
+    hit = _MASK_CACHE.get(key)
+    if hit is not None and hit[0] == len(s):
+        return hit[1]
     n = len(s)
     m = bytearray(b"\x01") * n
-    i = 0
-    while i < n:
-        c = s[i]
-        if c == '/' and i + 1 < n and s[i + 1] == '/':
-            j = s.find('\n', i)
-            if j < 0:
-                j = n
-            for k in range(i, j):
-                m[k] = 0
-            i = j
-        elif c == '/' and i + 1 < n and s[i + 1] == '*':
+    pos = 0
+    while True:
+        mm = _TOK.search(s, pos)
+        if not mm:
+            break
+        a = mm.start()
+        t = mm.group(0)
+        if t == '/*':
             depth = 1
-            j = i + 2
+            j = a + 2
             while j < n and depth:
-                if s.startswith('/*', j):
+                k1 = s.find('/*', j)
+                k2 = s.find('*/', j)
+                if k2 < 0:
+                    j = n
+                    break
+                if 0 <= k1 < k2:
                     depth += 1
-                    j += 2
-                elif s.startswith('*/', j):
-                    depth -= 1
-                    j += 2
+                    j = k1 + 2
                 else:
-                    j += 1
-            for k in range(i, j):
-                m[k] = 0
-            i = j
-        elif c == '"' or (c == 'r' and re.match(r'r#*"', s[i:i + 8]) and (i == 0 or not (s[i - 1].isalnum() or s[i - 1] == '_'))) \
-                or (c == 'b' and i + 1 < n and s[i + 1] == '"' and (i == 0 or not (s[i - 1].isalnum() or s[i - 1] == '_'))):
-            if c == 'r':
-                mm = re.match(r'r(#*)"', s[i:])
-                hashes = mm.group(1)
-                j = s.find('"' + hashes, i + len(mm.group(0)))
-                if j < 0:
-                    raise Lost('unterminated raw string')
-                j += 1 + len(hashes)
-            else:
-                j = i + (2 if c == 'b' else 1)
-                while j < n and s[j] != '"':
-                    if s[j] == '\\':
-                        j += 1
-                    j += 1
-                j += 1
-            for k in range(i, min(j, n)):
-                m[k] = 0
-            i = j
-        elif c == "'":
-            mm = re.match(r"'(\\x[0-9a-fA-F]{2}|\\u\{[0-9a-fA-F]+\}|\\.|[^\\'])'", s[i:i + 12])
-            if mm:
-                for k in range(i, i + len(mm.group(0))):
-                    m[k] = 0
-                i += len(mm.group(0))
-            else:
-                i += 1  # lifetime
+                    depth -= 1
+                    j = k2 + 2
+            b = j
+        elif t.startswith('r') and t.endswith('"') and mm.group(1) is not None:
+            hashes = mm.group(1)
+            k = s.find('"' + hashes, mm.end())
+            if k < 0:
+                raise Lost('unterminated raw string')
+            b = k + 1 + len(hashes)
         else:
-            i += 1
+            b = mm.end()
+        m[a:b] = b"\x00" * (b - a)
+        pos = b
+    if len(_MASK_CACHE) > 8:
+        _MASK_CACHE.clear()
+    _MASK_CACHE[key] = (n, m)
     return m
 
 
